@@ -357,3 +357,42 @@ def match_domain(guard, host):
         gi -= 1
         hi -= 1
     return hi < 0
+
+
+def common_host(g1, g2):
+    """A host that both guards match according to the documented semantics, or None (bounded search over hosts
+    built from the guards' own labels)."""
+    def labels(g):
+        return g.rstrip(".").split(".")
+    l1, l2 = labels(g1), labels(g2)
+    cands = set()
+    for (a, b) in ((l1, l2), (l2, l1)):
+        # instantiate `a`, borrowing literal labels of `b` (aligned from the right) for a's parameters
+        rb = list(reversed(b))
+        for fill in ("q7", None):
+            host = []
+            ra = list(reversed(a))
+            for i, lab in enumerate(ra):
+                other = rb[i] if i < len(rb) and "{" not in rb[i] else "q7"
+                if lab.startswith("{*"):
+                    suffix = lab[lab.index("}") + 1:]
+                    rest = [x for x in rb[i:] if "{" not in x] or ["q7"]
+                    for n in (1, 2, 3):
+                        tail = list(reversed((rest + ["q7", "q8"])[:n]))
+                        tail[-1] = tail[-1] + suffix if suffix else tail[-1]
+                        cands.add(".".join(tail + list(reversed(host))))
+                    host.append(("q7" if fill else other) + suffix)
+                elif lab.startswith("{"):
+                    suffix = lab[lab.index("}") + 1:]
+                    v = "q7" if fill else other
+                    if suffix and v.endswith(suffix) and len(v) > len(suffix):
+                        host.append(v)
+                    else:
+                        host.append(v + suffix)
+                else:
+                    host.append(lab)
+            cands.add(".".join(reversed(host)))
+    for h in sorted(cands):
+        if match_domain(g1, h) and match_domain(g2, h):
+            return h
+    return None
